@@ -114,10 +114,14 @@ Judge(e) ==
         <<"C15", HasF(e, "hg") =>
                     ( HasF(e, "http") /\ C15_Step(e.hg, e.http, resp, pre, post) ) >>,
         <<"C16", (HasF(e, "allow") /\ HasF(e, "http")) =>
-                    C16_Step(e.allow, IF HasF(e, "hg") THEN e.hg.c ELSE req.c,
-                             IF HasF(e, "hg") THEN e.hg.cid ELSE "valid",
-                             IF HasF(e, "hg") THEN IsProto(e.hg.route) ELSE TRUE,
-                             IF HasF(e, "hg") THEN e.hg.cls = "yes" ELSE TRUE, e.http, e.ntxn, pre, post) >>,
+                    ( /\ C16_Step(e.allow, IF HasF(e, "hg") THEN e.hg.c ELSE req.c,
+                                  IF HasF(e, "hg") THEN e.hg.cid ELSE "valid",
+                                  IF HasF(e, "hg") THEN IsProto(e.hg.route) ELSE TRUE,
+                                  IF HasF(e, "hg") THEN e.hg.cls = "yes" ELSE TRUE, e.http, e.ntxn, pre, post)
+                      \* "listed clients are served exactly as if no list existed": under a list, a listed client's exchange
+                      \* carries what the library twin (no list, twin storage) answers, and leaves the state the twin has
+                      /\ ( (e.allow.on /\ HasF(e, "twin") /\ ~HasF(e, "hg") /\ isc) =>
+                             C14_Step(req.op, e.twin.resp, StOfSt(e.twin.st), resp, post, e.http) ) ) >>,
         <<"C20", HasF(e, "http") => C20_Step(e.http) >>,
         <<"M_conf", (isc /\ req.op # "Walk") =>
                        LET ms == ModelStep(pre, req, e.day, resp.vid) IN
